@@ -94,8 +94,12 @@ def gen_cases(ctx):
     axes = [0, 1, 2]
     rng.shuffle(axes)
     axes.append(rng.choice([0, 1, 2]))
-    pols = list(POLS)
+    # the three uniform scenes cover the three propagation axes (axes[:3] is a permutation) and are polarised OBLIQUELY, so that
+    # both transverse components of every per-axis injection / curl branch carry field in every run; the axis-parallel classes
+    # h / v (special cases) go to the Gaussian scene by seed and are swept completely in the thorough tier
+    pols = ["obl", "hfix", rng.choice(["obl", "hfix"])]
     rng.shuffle(pols)
+    pols.append(rng.choice(["h", "v"]))
     res = [15, 20, 15, 20]
     rng.shuffle(res)
     d0 = rng.choice(["+", "-"])
@@ -260,7 +264,7 @@ def run(ctx):
     mu = max([r["maxSteadyRatio"] for r in recs if r["beam"] == "uniform"] or [0])
     mg = max([r["maxSteadyRatio"] for r in recs if r["beam"] == "gauss"] or [0])
     ctx.notes += [EXPLANATION,
-                  f"scenes run: {len(recs)} of {len(configs())} enumerated ({'seeded choice; uniform source in both directions and both profiles, one Gaussian beam at radius 0.3' if ctx.quick else 'all'})",
+                  f"scenes run: {len(recs)} of {len(configs())} enumerated ({'seeded choice; three obliquely polarised uniform scenes covering all three axes, both directions and both profiles, one Gaussian beam at radius 0.3' if ctx.quick else 'all'})",
                   f"observed: max |P_back|/P_fwd over Steady windows = {mu} ppb for uniform sources (bound 1000000 ppb), {mg} ppb for Gaussian beams (bound 100000000 ppb)"]
     ctx.extra_cov["explanation"] = EXPLANATION
     ctx.extra_cov["observed_margins"] = {"uniform_max_ratio_ppb": mu, "uniform_bound_ppb": 1000000, "gauss_max_ratio_ppb": mg, "gauss_bound_ppb": 100000000}
